@@ -13,7 +13,7 @@ TRUSTED_BASE = ["modelled not verified: gimli, core::slice::binary_search_by_key
 
 def generate(rng, tier):
     out = []
-    reps = 10 if tier == "quick" else 300
+    reps = 16 if tier == "quick" else 400
     for rep in range(reps):
         arch = "x86" if rep % 2 == 0 else "a64"
         gran = 8 if arch == "x86" else 16
@@ -52,15 +52,15 @@ def generate(rng, tier):
                 for a in (st - 1, st, st + 1, en - 1, en, en + 1):
                     if 0 <= a <= M64:
                         pts.add(a)
-            for (st, en) in cands:
-                pts.add(st); pts.add(en - 1)
-            pts = sorted(pts)
-            for _ in range(6):
-                a = rng.choice(pts)
+            allpts = sorted(pts | set(x for (st, en) in cands for x in (st, en - 1)))
+            # every registered module's first and last byte, plus a few others
+            chosen = [x for st, mid in cur.items() for x in (st, mods[mid]["end"] - 1)]
+            chosen += [rng.choice(allpts) for _ in range(4)]
+            for a in chosen:
                 kind = rng.choice(["ip", "ra"])
                 addr = a if kind == "ip" else a + 1
                 if addr > M64 or (kind == "ra" and addr == 0):
-                    continue
+                    kind, addr = "ip", a
                 sp = base_stack + gran * rng.range(0, 4)
                 bp = 0x7800
                 regs = s.regs_x86(a, sp, bp) if arch == "x86" else s.regs_a64(M64, 0x4444, sp, bp)
@@ -74,9 +74,11 @@ def generate(rng, tier):
                               "kind": kind}
                 s.tags[ln] = "%s:%s:%s:%s" % (arch, mods[hit]["pres"] if hit else "none", kind,
                                               "lo" if a < 0x100000 else "hi")
-        for step in range(rng.range(6, 14)):
+        for step in range(rng.range(10, 20)):
             u = rng.choice(sorted(unws))
             c = rng.below(10)
+            if len(unws[u]) >= 3 and rng.chance(1, 3):
+                c = 5                                      # remove a registered module (often not the last)
             if c < 5:
                 free = [m for m in mods if mods[m]["start"] not in unws[u]]
                 if free:
